@@ -711,7 +711,16 @@ class Interp:
             raise AnalysisError(f"{self.where(node)}: unpack of field value")
         raise AnalysisError(f"{self.where(node)}: cannot unpack {v!r}")
 
+    def shared_name(self, obj):
+        reg = self.world.__dict__.setdefault("shared_names", {})
+        if id(obj) not in reg:
+            reg[id(obj)] = (f"mapping#{len(reg) + 1}", obj)
+        return reg[id(obj)][0]
+
     def store_index(self, base, idx, v, node):
+        if isinstance(base, dict) and _has_abstract(idx):
+            self.emit("shared_store", target=self.shared_name(base), key=_hashable(idx), node=node)
+            return
         if isinstance(base, (list, dict, bytearray)) and not is_sym(idx):
             try:
                 base[idx] = v
@@ -1105,8 +1114,17 @@ class Interp:
                 if self.truth(r, node):
                     return True
             return res
-        if isinstance(container, dict) and not is_sym(x):
+        if isinstance(container, range) and container.step == 1 and is_sym(x):
+            # start <= x < stop (x an integer: callers test isinstance first; a non-int would compare unequal to every element)
+            lo = self.compare(ast.GtE(), x, container.start, node)
+            if not self.truth(lo, node):
+                return False
+            return self.compare(ast.Lt(), x, container.stop, node)
+        if isinstance(container, dict) and not _has_abstract(x):
             return x in container
+        if isinstance(container, dict):
+            # mutable mapping queried with a symbolic key: its contents are state, not a function of the inputs
+            return Term("dict_has", (self.shared_name(container), _hashable(x)), "bool")
         if isinstance(container, (set, frozenset)) and not is_sym(x):
             return x in container
         if isinstance(container, (bytes, str)) and not is_sym(x):
@@ -1153,6 +1171,8 @@ class Interp:
             return Term("item", (base, idx), _item_sorts(base, None, idx))
         if isinstance(base, SymSeq):
             raise AnalysisError(f"{self.where(node)}: indexing a symbolic sequence")
+        if isinstance(base, dict) and _has_abstract(idx):
+            return Term("dict_get", (self.shared_name(base), _hashable(idx)), "any")
         if is_sym(idx):
             raise AnalysisError(f"{self.where(node)}: symbolic index {idx!r} into concrete container")
         if isinstance(base, External) or isinstance(base, ClassInfo):
